@@ -292,6 +292,57 @@ def run_simp(u, out):
     out['samples'].append({'simplify_goal': str(goals[0]), 'goals': len(goals)})
 
 
+def cong_family():
+    """Congruence clauses with too few / exactly enough / too many premise equations for symbols of arity 1..3, and distinct-list
+    equivalences with complete, truncated, extended and reoriented pair lists.  -> list of clauses (tuples of literals)"""
+    from kernel.type import TVar, TFun, BoolType, TConst
+    from kernel.term import Var, Eq, Not, And, Const
+    from data import list as hol_list
+    T = TVar('a')
+    xs = [Var('x%d' % i, T) for i in range(1, 4)]
+    ys = [Var('y%d' % i, T) for i in range(1, 4)]
+    out = []
+    for ar in (1, 2, 3):
+        P = Var('P%d' % ar, TFun(*([T] * ar + [BoolType])))
+        F = Var('F%d' % ar, TFun(*([T] * ar + [T])))
+        for k in range(0, ar + 2):
+            if k > 3:
+                continue
+            eqs = tuple(Not(Eq(xs[i], ys[i])) for i in range(min(k, 3)))
+            out.append(eqs + (Not(P(*xs[:ar])), P(*ys[:ar])))
+            out.append(eqs + (P(*xs[:ar]), Not(P(*ys[:ar]))))
+            out.append(eqs + (Eq(F(*xs[:ar]), F(*ys[:ar])),))
+        if ar >= 2:
+            # premises given in swapped orientation / for the wrong positions
+            eqs = tuple(Not(Eq(ys[i], xs[i])) for i in range(ar))
+            out.append(eqs + (Not(P(*xs[:ar])), P(*ys[:ar])))
+            out.append(eqs + (Eq(F(*xs[:ar]), F(*ys[:ar])),))
+            eqs = tuple(Not(Eq(xs[i], ys[i])) for i in range(ar - 1)) + (Not(Eq(xs[0], ys[0])),)
+            out.append(eqs + (Not(P(*xs[:ar])), P(*ys[:ar])))
+            out.append(eqs + (Eq(F(*xs[:ar]), F(*ys[:ar])),))
+    # distinct
+    a = [Var(n, T) for n in 'abcd']
+    dist = Const('distinct', TFun(TConst('list', T), BoolType))
+    for n in (2, 3, 4):
+        ts = a[:n]
+        pairs = [Not(Eq(ts[i], ts[j])) for i in range(n) for j in range(i + 1, n)]
+        lhs = dist(hol_list.mk_literal_list(ts, T))
+        variants = [pairs, pairs[:-1], pairs[:1], pairs + [Not(Eq(ts[0], ts[1]))], [Not(Eq(p.arg.rhs, p.arg.lhs)) for p in pairs], pairs[1:], [p for i, p in enumerate(pairs) if i != 1] if len(pairs) > 2 else pairs]
+        for v in variants:
+            if v:
+                out.append((Eq(lhs, And(*v)),))
+    return out
+
+
+def run_cong(u, out):
+    cls = cong_family()
+    rl = [r for r in rules() if r != 'verit_th_resolution']
+    for i, cl in enumerate(cls):
+        for rn in rl:
+            offer(rn, cl, [], out, {'part': 'cong', 'i': i, 'rule': rn})
+    out['samples'].append({'congruence_clause': [str(c) for c in cls[3]], 'clauses': len(cls)})
+
+
 def round_family(k):
     """Integer literals over the single form k*x: k*x ~ c and their negations, c in [-5,5] (integer rounding of bounds)."""
     from kernel.type import IntType
@@ -399,6 +450,7 @@ def units(tier, seed):
         for lo in range(0, total, 50):
             us.append(('arith', tier, seed, Tn, lo, lo + 50))
     us.append(('simp', tier, seed))
+    us.append(('cong', tier, seed))
     for k in (2, 3, 4):
         nl = len(round_family(k))
         for lo in range(0, nl, 11):
@@ -425,6 +477,8 @@ def run_unit(u):
         run_round(u, out)
     elif u[0] == 'simp':
         run_simp(u, out)
+    elif u[0] == 'cong':
+        run_cong(u, out)
     else:
         run_quant(u, out)
     del out['_seen']
@@ -496,6 +550,8 @@ def rebuild(c):
         return rule, cl, [Thm(fs[i]) for i in c['prem']]
     if part == 'simp':
         return rule, (simp_family()[c['i']],), []
+    if part == 'cong':
+        return rule, cong_family()[c['i']], []
     if part == 'round':
         from kernel.term import Number
         from kernel.type import IntType
